@@ -185,4 +185,20 @@ def nodeOp (n : MNode) (toks : List String) : Option (MNode × String) :=
     | none => none
   | _ => none
 
+/-- `pad preamble <schemehex> <seed> <hashhex>` -/
+def preambleOp (toks : List String) : String :=
+  match toks with
+  | [sch, seed, hash] =>
+    match bytesOfHex sch, seed.toNat?, bytesOfHex hash with
+    | some raw, some seedN, some h =>
+      match Scheme.parse raw with
+      | none => "reject"
+      | some s =>
+        let specs := s.specs 0
+        let (rs, _) := drawN (drawsNeeded specs) (UInt64.ofNat seedN)
+        let ws := preamble h s rs
+        s!"ok w=[{joinSep "," (ws.map (fun w => toString w.length))}] bytes={hexOfBytes (flatten ws)}"
+    | _, _, _ => "bad-op"
+  | _ => "bad-op"
+
 end AnyTLS.Drv
